@@ -89,6 +89,7 @@ pub fn recv_step<S: Shape, const CAP: usize, const R: usize, const T: usize, con
         }
     }
 
+    kani::cover!(got == 5, "w:message-retained");
     // ---- post-state ----
     let b = rx.verif_buffer_mut();
     let win = b.verif_window();
@@ -186,7 +187,7 @@ pub fn post_recv<S: Shape, const CAP: usize, const R: usize, const T: usize, con
     }
     kani::cover!(got == 1 && calls >= 2, "w:message-after-two-reads");
     kani::cover!(got == 1 && s1 > 0, "w:message-leaves-remainder");
-    kani::cover!(got == 1 && consumed == 0 && msg_size > 0, "w:message-retained");
+    kani::cover!(got == 1 && consumed == 0 && msg_size > 0, "o:message-retained");
     kani::cover!(got == 2, "w:closed");
     kani::cover!(got == 3 && oom, "o:out-of-memory");
     kani::cover!(got == 3 && !oom || !FAULTS, "w:read-error-or-no-faults");
